@@ -460,6 +460,8 @@ func (state *RuntimeState) LoadUserProfile(username string) (
 	var defaultProfile userProfile
 	defaultProfile.U2fAuthData = make(map[int64]*u2fAuthData)
 	defaultProfile.TOTPAuthData = make(map[int64]*totpAuthData)
+	// Must be read before the data: see SaveUserProfile.
+	defaultProfile.loadedVersion = state.getProfileVersion(username)
 	ch := make(chan loadUserProfileData, 1)
 	start := time.Now()
 	go func(username string) { //loads profile from DB
@@ -540,12 +542,37 @@ var saveUserProfileStmt = map[string]string{
 	"postgres": "insert into user_profile(username, profile_data) values ($1,$2) on CONFLICT(username) DO UPDATE set  profile_data = excluded.profile_data",
 }
 
+// Handlers read, modify and write back the whole profile. The (in-memory, per
+// user) version lets SaveUserProfile detect that the stored profile was changed
+// or deleted by another request since this copy was loaded, instead of silently
+// undoing that change (e.g. re-enabling a token that was just disabled, or
+// accepting a one time secret twice).
+func (state *RuntimeState) getProfileVersion(username string) uint64 {
+	state.profileVersionMutex.Lock()
+	defer state.profileVersionMutex.Unlock()
+	return state.profileVersion[username]
+}
+
+// Must be called with profileVersionMutex held.
+func (state *RuntimeState) bumpProfileVersion(username string) uint64 {
+	if state.profileVersion == nil {
+		state.profileVersion = make(map[string]uint64)
+	}
+	state.profileVersion[username]++
+	return state.profileVersion[username]
+}
+
 func (state *RuntimeState) SaveUserProfile(username string,
 	profile *userProfile) error {
 	var gobBuffer bytes.Buffer
 	encoder := gob.NewEncoder(&gobBuffer)
 	if err := encoder.Encode(profile); err != nil {
 		return err
+	}
+	state.profileVersionMutex.Lock()
+	defer state.profileVersionMutex.Unlock()
+	if state.profileVersion[username] != profile.loadedVersion {
+		return errors.New("user profile was modified concurrently")
 	}
 	start := time.Now()
 	//insert into DB
@@ -568,6 +595,7 @@ func (state *RuntimeState) SaveUserProfile(username string,
 	if err != nil {
 		return err
 	}
+	profile.loadedVersion = state.bumpProfileVersion(username)
 	metricLogExternalServiceDuration("storage-save", time.Since(start))
 	return nil
 }
@@ -578,6 +606,10 @@ var deleteUserProfileStmt = map[string]string{
 }
 
 func (state *RuntimeState) DeleteUserProfile(username string) error {
+	state.profileVersionMutex.Lock()
+	defer state.profileVersionMutex.Unlock()
+	// A copy loaded before the delete must not resurrect the user.
+	defer state.bumpProfileVersion(username)
 	//delete from DB
 	tx, err := state.db.Begin()
 	if err != nil {
